@@ -106,6 +106,7 @@ type e1 struct {
 
 	conn       *drpcconn.Conn
 	sharedMeta map[string]string // the application's long-lived metadata map (style 1)
+	byzP       *byzProxy
 	cli        drpc.Conn // what client scripts call: the connection itself, or a pool conn (pooled family)
 	pooled     *pooledState
 	cep, sep   *Endpoint
@@ -237,6 +238,7 @@ func (x *e1) setup() {
 	case "C13":
 		bp := &byzProxy{x: x, Fired: map[string]int{}, dead: map[*Endpoint]bool{}}
 		x.net.Mutate = bp.mutate
+		x.byzP = bp
 	}
 	for ep, fs := range x.prog.IOFaults {
 		switch ep {
